@@ -188,7 +188,7 @@ theorem bb_step {Def : Name → String → Prop} {bbs : List BBox} {ord : Ord} (
     (hok : (RStmt.bb ty inst pins).OK bbs)
     (hnew : ∀ n t t', (RStmt.bb ty inst pins).dty bbs n t → ¬ Def n t')
     (hregnew : ∀ d, ¬ B (inst, d))
-    (hU : ∀ n ∈ (RStmt.bb ty inst pins).uses bbs, U n)
+    (hU : ∀ n b, (RStmt.bb ty inst pins).edge bbs (.net n) b → Plain n → U n)
     (hdefs : ((RStmt.bb ty inst pins).defs bbs).Nodup) :
     ∃ st', doItem bbs ord (st, dcl) (RStmt.bb ty inst pins).item = .ok (st', dcl) ∧ st'.gateExprs = [] ∧
       st'.c.name = st.c.name ∧
@@ -217,10 +217,8 @@ theorem bb_step {Def : Name → String → Prop} {bbs : List BBox} {ord : Ord} (
     | c0 => exact Or.inl rfl
     | c1 => exact Or.inr (Or.inl rfl)
     | net n =>
-      refine Or.inr (Or.inr (hU n ?_))
-      simp only [RStmt.uses, hd]
-      rw [List.mem_flatMap]
-      exact ⟨_, ho, by simp [hk, ROp.nets]⟩
+      exact Or.inr (Or.inr (hU n (inst ++ "." ++ k) ⟨d, hd, k, .net n, ho, Or.inl ⟨hk, rfl, rfl⟩⟩
+        ((hpo _ ho _ rfl).1 n (by simp [ROp.nets]))))
   have hlk : ∀ k x, cs.lookup k = some x ↔ (k, x) ∈ cs :=
     fun k x => ⟨lookup_mem, lookup_of_mem_nodup hkeys⟩
   -- the statement
